@@ -22,6 +22,9 @@ import (
 type params struct {
 	Calls int      `json:"calls"` // message ids 1..Calls
 	Env   []string `json:"env"`   // environment threads, e.g. "ack:1", "result:1", "result:2", "error:1", "cancel:1", "close"
+	// SendErr: the transport reports a write error for call 1 although the bytes went out,
+	// so the server can still answer the request whose Do is returning with that error
+	SendErr bool `json:"send_err,omitempty"`
 }
 
 type payload struct{ v int32 }
@@ -54,6 +57,9 @@ func body(p params, o *sx.Obs) {
 	eng := rpc.New(func(ctx context.Context, msgID int64, seqNo int32, in bin.Encoder) error {
 		o.Log("send %d", msgID)
 		sentFlag(int(msgID)).Set()
+		if p.SendErr && msgID == 1 {
+			return errors.New("write: broken pipe")
+		}
 		return nil
 	}, rpc.Options{Clock: sx.Clock{}, RetryInterval: time.Second, MaxRetries: 2, DropHandler: func(req rpc.Request) error {
 		o.Log("drop %d", req.MsgID)
@@ -195,17 +201,20 @@ func scan(s, format string, a ...any) bool {
 
 func scenarios() []params {
 	return []params{
-		{1, []string{"ack:1", "result:1", "cancel:1"}},
-		{1, []string{"result:1", "result:1", "cancel:1"}},
-		{1, []string{"ack:1", "error:1", "result:1"}},
-		{1, []string{"result:1", "close"}},
-		{1, []string{"ack:1", "cancel:1", "close"}},
-		{1, []string{"result:2", "cancel:1"}},
-		{1, []string{"error:1", "cancel:1", "result:1"}},
-		{2, []string{"result:2", "result:1"}},
-		{2, []string{"result:1", "result:3", "cancel:2"}},
-		{2, []string{"ack:1", "result:1", "close"}},
-		{2, []string{"error:2", "result:1", "cancel:1"}},
+		{1, []string{"ack:1", "result:1", "cancel:1"}, false},
+		{1, []string{"result:1", "result:1", "cancel:1"}, false},
+		{1, []string{"ack:1", "error:1", "result:1"}, false},
+		{1, []string{"result:1", "close"}, false},
+		{1, []string{"ack:1", "cancel:1", "close"}, false},
+		{1, []string{"result:2", "cancel:1"}, false},
+		{1, []string{"error:1", "cancel:1", "result:1"}, false},
+		{2, []string{"result:2", "result:1"}, false},
+		{2, []string{"result:1", "result:3", "cancel:2"}, false},
+		{2, []string{"ack:1", "result:1", "close"}, false},
+		{2, []string{"error:2", "result:1", "cancel:1"}, false},
+		{1, []string{"result:1"}, true},
+		{1, []string{"result:1", "ack:1"}, true},
+		{1, []string{"error:1", "result:1"}, true},
 	}
 }
 
@@ -223,9 +232,9 @@ func main() {
 			sx.Explore(c, mk(scs[0]), 0, 0, 1)
 			return
 		}
-		c.Rule("real rpc.Engine (instrumented copy of /repo/rpc), 1-2 concurrent Do calls plus environment threads {ack, result, duplicate result, " +
-			"result for another id, rpc error, cancel, ForceClose}; every interleaving at every sync operation with at most %d preemptions/early-timer " +
-			"deviations for 1-call scenarios and one less for 2-call scenarios (stateless DFS, iterative context bounding); oracle on the event log: one return per call, no write for another id, at most one " +
+		c.Rule("real rpc.Engine (instrumented copy of /repo/rpc), 1-2 concurrent Do calls plus environment threads {ack, result, duplicate result, "+
+			"result for another id, rpc error, cancel, ForceClose}; every interleaving at every sync operation with at most %d preemptions/early-timer "+
+			"deviations for 1-call scenarios and one less for 2-call scenarios (stateless DFS, iterative context bounding); oracle on the event log: one return per call, no write for another id, at most one "+
 			"write, no write overlapping or following the return, nil result only with a completed own write, rpc error only its own. distinct = distinct schedules.", bound)
 		c.Assume("scheduling points at every channel/mutex/atomic/context/timer operation of the instrumented package; memory model below Go happens-before not explored")
 		// work units: (scenario, subtree shard); the 2-call scenarios are split over several processes
